@@ -2,7 +2,7 @@
    Tables.bms.layouts, the decoded lines, and the chart BMSMap.read returned (None = it raised). *)
 From Coq Require Import ZArith QArith Qround Qabs List Bool.
 From RV Require Export Base.PyNum Timing.Snapper Timing.Snap Timing.TimingMap Timing.Reseat Timing.Integrate
-  Formats.BMSText Formats.BMS Formats.BMSSpec Generated.Tables.
+  Formats.BMSText Formats.BMS Formats.BMSSpec Formats.BMSGuards Generated.Tables.
 Import ListNotations.
 Open Scope Q_scope.
 
@@ -11,7 +11,10 @@ Definition layout_ix (i : nat) : layout := nth i Tables.bms.layouts [].
 Definition max_keys := Tables.bms.max_keys.
 
 Inductive c04case :=
-| CRead (tol : Q) (lay : nat) (lines : list text) (out : option bms_chart).
+| CRead (tol : Q) (lay : nat) (lines : list text) (out : option bms_chart)
+(* texts whose '#WAVxx' / '#BPMxx' / '#LNOBJ' ids hold lower-case letters (incl. ids that differ only in letter case): wf is
+   wf_bms_lines_ids (Formats/BMSGuards.v); outside the domain of the theorems, judged by correspondence and by the oracle *)
+| CReadIds (tol : Q) (lay : nat) (lines : list text) (out : option bms_chart).
 
 Record verdict := { corr_ok : bool; spec_ok : bool; wf_ok : bool }.
 
@@ -55,11 +58,22 @@ Definition check (c : c04case) : verdict :=
                     end;
          spec_ok := negb wf || match out with Some o => c04_specb tol lay lines o | None => false end;
          wf_ok := wf |}
+  | CReadIds tol li lines out =>
+      let lay := layout_ix li in
+      let m := bms_read tbl lay max_keys lines in
+      let wf := wf_bms_lines_ids lay lines in
+      {| corr_ok := match m, out with
+                    | None, None => true
+                    | Some a, Some b => chart_close tol a b
+                    | _, _ => false
+                    end;
+         spec_ok := negb wf || match out with Some o => c04_specb tol lay lines o | None => false end;
+         wf_ok := wf |}
   end.
 
 (* the guard of the read theorem (used to classify a failing case; not part of wf) *)
 Definition guards (c : c04case) : bool :=
-  match c with CRead _ li lines _ => read_guards tbl lines end.
+  match c with CRead _ li lines _ | CReadIds _ li lines _ => read_guards tbl lines end.
 
 Fixpoint failing_go (i : nat) (l : list c04case) (acc : list nat * list nat * list nat)
   : list nat * list nat * list nat :=
